@@ -82,9 +82,10 @@ func CheckGe[T Real](pkg string, fns GeFns[T]) func(GeCase) *vk.Failure {
 		gx, gy := blasGeom(lenX, incX), blasGeom(lenY, incY)
 		alpha, beta := T(c.Alpha), T(c.Beta)
 		guard := c.Guard
-		if guard < 0 || guard > 2 {
+		if guard < 0 || guard >= len(guardModes) {
 			guard = 0
 		}
+		gdX, gdY, gdA := guardOf(guard) // third placement: the matrix
 		offA, offX, offY := c.OffA&15, c.OffX&15, c.OffY&15
 
 		vk.Class(fmt.Sprintf("%s.%s", pkg, c.Fn))
@@ -104,9 +105,9 @@ func CheckGe[T Real](pkg string, fns GeFns[T]) func(GeCase) *vk.Failure {
 
 		rng := vk.NewSplitMix(c.Seed)
 		gen := &Gen{R: rng, W32: k.W32, Cls: ClsFinite}
-		va := NewVec[T](lda*(m-1)+n, offA, guard, 4, c.Trim)
-		vx := NewVec[T](gx.Len, offX, guard, 1, c.Trim)
-		vy := NewVec[T](gy.Len, offY, guard, 2, c.Trim)
+		va := NewVec[T](lda*(m-1)+n, offA, gdA, 4, c.Trim)
+		vx := NewVec[T](gx.Len, offX, gdX, 1, c.Trim)
+		vy := NewVec[T](gy.Len, offY, gdY, 2, c.Trim)
 		defer func() { va.Free(); vx.Free(); vy.Free() }()
 		for i := 0; i < m; i++ {
 			for j := 0; j < n; j++ {
@@ -250,7 +251,10 @@ func RunGe[T Real](t *testing.T, pkg string, fns GeFns[T]) {
 							cnt++
 							r := vk.NewSplitMix(cnt * 0x9e3779b97f4a7c15)
 							c := GeCase{Fn: fn, M: m, N: n, LdaPad: []int{0, 1, 3}[int(cnt)%3], OffA: int(cnt) % 8, OffX: (m + ti) % 8, OffY: (n + 3*ti) % 8,
-								IncX: tp[0], IncY: tp[1], Guard: int(cnt/2) % 3, Trim: cnt%2 == 0, Seed: cnt * 0x2545F4914F6CDD1D}
+								IncX: tp[0], IncY: tp[1], Trim: cnt%2 == 0, Seed: cnt * 0x2545F4914F6CDD1D}
+							if g := int(r.Uint64() % 20); g < len(guardModes) {
+								c.Guard = g
+							}
 							c.Alpha = vk.F(float32(ScalarOf(r, k.W32, ClsFinite)))
 							if bz == 1 {
 								c.Beta = vk.F(float32(ScalarOf(r, k.W32, ClsFinite)))
@@ -273,7 +277,9 @@ func RunGe[T Real](t *testing.T, pkg string, fns GeFns[T]) {
 				c.IncY = vk.Inc(t, "incy")
 				c.Alpha = vk.F(vk.Scalar(t, "alpha"))
 				c.Beta = vk.F(vk.Scalar(t, "beta"))
-				c.Guard = rapid.SampledFrom([]int{0, 0, 1, 2}).Draw(t, "guard")
+				if rapid.IntRange(0, 2).Draw(t, "guarded") == 0 {
+					c.Guard = rapid.IntRange(1, len(guardModes)-1).Draw(t, "guard")
+				}
 				c.Trim = rapid.Bool().Draw(t, "trim")
 				c.Seed = rapid.Uint64().Draw(t, "seed")
 				return c
